@@ -2,6 +2,7 @@ use rusty_parser::BuiltInFunction;
 
 use crate::RuntimeError;
 use crate::interpreter::interpreter_trait::InterpreterTrait;
+use crate::interpreter::variant_casts::whole_number_to_variant;
 
 pub fn run<S: InterpreterTrait>(interpreter: &mut S) -> Result<(), RuntimeError> {
     let path = interpreter
@@ -12,7 +13,7 @@ pub fn run<S: InterpreterTrait>(interpreter: &mut S) -> Result<(), RuntimeError>
     let address = interpreter.context().calculate_varptr(path)?;
     interpreter
         .context_mut()
-        .set_built_in_function_result(BuiltInFunction::VarPtr, address as i32);
+        .set_built_in_function_result(BuiltInFunction::VarPtr, whole_number_to_variant(address));
     Ok(())
 }
 
